@@ -41,8 +41,8 @@ namespace avel {
 
         [[nodiscard]]
         AVEL_FINL friend div_type<std::int64_t> div(std::int64_t n, Denominator denom) {
-            std::int64_t q0 = n + mulhi(denom.mp, n);
-            q0 = (q0 >> denom.sh) - (n >> 63);
+            std::int64_t q0 = std::int64_t(std::uint64_t(n) + std::uint64_t(mulhi(denom.mp, n)));
+            q0 = std::int64_t(std::uint64_t(q0 >> denom.sh) - std::uint64_t(n >> 63));
             std::int64_t q = (q0 ^ denom.d_sign) - denom.d_sign;
             std::int64_t r = n - (q * denom.d);
             return {q, r};
